@@ -171,7 +171,7 @@ type pdRun struct {
 	requests int
 }
 
-var pdPool = bufferpool.New(4 * 16384)
+var pdScratch = sync.Pool{New: func() any { b := make([]byte, 4*16384); return &b }}
 var pdZero = make([]byte, 16384)
 
 // pdExec runs seq on a fresh real PieceDownloader; oracles are evaluated on every step (cheap), and
@@ -195,14 +195,22 @@ func pdExec(vs *vset, cfg pdConfig, ops []pdOp, seq []int, names []string) (res 
 	}()
 	pi := &piece.Piece{Index: 7, Length: cfg.Length, Data: filesection.Piece{{Length: int64(cfg.Length)}}}
 	pe := &pdPeer{fast: cfg.PeerFast, index: 7, blocks: blocks, out: make([]int, len(blocks))}
-	buf := pdPool.Get(int(cfg.Length))
-	defer buf.Release()
+	scratch := pdScratch.Get().(*[]byte)
+	buf := bufferpool.Buffer{Data: (*scratch)[:cfg.Length]}
 	d := piecedownloader.New(pi, pe, cfg.AllowedFast, buf)
 	var storedA, attemptsA [4]int
 	var storedB [4]bool
 	stored := storedB[:len(blocks)]
 	attempts := attemptsA[:len(blocks)]
 	_ = storedA
+	defer func() {
+		for i, b := range blocks { // re-zero only what may have been written
+			if attempts[i] > 0 {
+				clear((*scratch)[b.begin : b.begin+b.length])
+			}
+		}
+		pdScratch.Put(scratch)
+	}()
 	// model of the buffer: block i holds pattern A iff stored[i], zeroes otherwise
 	bufOK := func() bool {
 		for i, b := range blocks {
